@@ -9,6 +9,7 @@ import (
 	"strings"
 
 	"golang.org/x/tools/go/ssa"
+	"golang.org/x/tools/go/ssa/ssautil"
 )
 
 func init() { register("C08", checkC08) }
@@ -302,6 +303,11 @@ func assertDominated(ta *ssa.TypeAssert) (bool, string) {
 		if t2.X == ta.X && types.Identical(t2.AssertedType, ta.AssertedType) {
 			return true, "dominated by a successful test of the same value"
 		}
+	}
+	// pool.Get().(T) on a package-level sync.Pool that only ever holds T: New returns a T and every Put in the program
+	// puts a T (values of another type, or nil when there is no New, would panic here)
+	if ok, how := poolHoldsOnly(ta); ok {
+		return true, how
 	}
 	// asserting to an interface the static type already implements cannot fail only if non-nil: not accepted
 	return false, "no type test of this value dominates the assertion; a value of another dynamic type panics"
@@ -1646,4 +1652,71 @@ func c08Scope(p *Program, r *Report, scope []*ssa.Function, as string) (map[stri
 		}
 	}
 	return kinds, hows
+}
+
+// poolHoldsOnly: ta asserts the result of Get on a package-level sync.Pool to T; the pool's New function (a function
+// literal in the variable's initialiser) returns a T on every path, and every Put on that pool anywhere in the program
+// is given a value of static type T.
+func poolHoldsOnly(ta *ssa.TypeAssert) (bool, string) {
+	get, ok := ta.X.(*ssa.Call)
+	if !ok {
+		return false, ""
+	}
+	cal := get.Call.StaticCallee()
+	if cal == nil || cal.String() != "(*sync.Pool).Get" || len(get.Call.Args) != 1 {
+		return false, ""
+	}
+	pool, ok := get.Call.Args[0].(*ssa.Global)
+	if !ok {
+		return false, ""
+	}
+	prog := ta.Parent().Prog
+	want := ta.AssertedType
+	okNew, puts, okPuts := false, 0, true
+	for fn := range ssautil.AllFunctions(prog) {
+		for _, b := range fn.Blocks {
+			for _, in := range b.Instrs {
+				switch x := in.(type) {
+				case *ssa.Store:
+					// the New field of the pool, set in the package initialiser
+					fa, ok := x.Addr.(*ssa.FieldAddr)
+					if !ok || fa.X != ssa.Value(pool) || fieldOfAddr(fa).Name() != "New" {
+						continue
+					}
+					var nf *ssa.Function
+					switch v := x.Val.(type) {
+					case *ssa.Function:
+						nf = v
+					case *ssa.MakeClosure:
+						nf, _ = v.Fn.(*ssa.Function)
+					}
+					if nf == nil {
+						continue
+					}
+					all := len(returnsOf(nf)) > 0
+					for _, ret := range returnsOf(nf) {
+						mi, ok := ret.Results[0].(*ssa.MakeInterface)
+						if !ok || !types.Identical(mi.X.Type(), want) {
+							all = false
+						}
+					}
+					okNew = all
+				case ssa.CallInstruction:
+					c2 := x.Common().StaticCallee()
+					if c2 == nil || c2.String() != "(*sync.Pool).Put" || len(x.Common().Args) != 2 || x.Common().Args[0] != ssa.Value(pool) {
+						continue
+					}
+					puts++
+					mi, ok := x.Common().Args[1].(*ssa.MakeInterface)
+					if !ok || !types.Identical(mi.X.Type(), want) {
+						okPuts = false
+					}
+				}
+			}
+		}
+	}
+	if okNew && okPuts {
+		return true, fmt.Sprintf("the pool only ever holds this type: New returns it and all %d Put call(s) put it", puts)
+	}
+	return false, ""
 }
